@@ -33,6 +33,10 @@ func chainSyncSetup(s *rt.Sim, tier string) func() {
 	schedCfg(s, true)
 	s.Cfg.MaxSteps = 150000
 	s.Cfg.MaxStall = 200 * time.Millisecond
+	// same reasoning as bfStallBudget: full blocks (up to 648 KB) cross a small socket buffer
+	// here too, and chain-sync gives up after 10 s without an answer (CanAwait, Intersect)
+	s.Cfg.StallWindow = 10 * time.Second
+	s.Cfg.StallBudget = 3 * time.Second
 	s.Cfg.Horizon = 12 * time.Hour
 	return func() {
 		ncfg := drawNetCfg(true)
